@@ -274,6 +274,7 @@ pub const DEF: PropDef = PropDef {
     droppable,
     well_formed,
     deviation_signature: true,
+    group_change_save: false,
     rule: "one evaluation = one simulated run of the real ServerState: a seeded edit history (didOpen, then 3-12 notifications, each didChange with 1-3 full or ranged changes whose positions are valid UTF-16 positions of the client model, plus clearly invalid ranges) over documents whose alphabet (ASCII / 2-3-byte / astral, LF or CRLF) is chosen per run; half of the runs deliver the messages strictly one at a time with immediate I/O (fault-free configuration), half under the seeded scheduler with up to 4 handlers in flight; after every completed didChange handler and at quiescence the server's copy is compared with the UTF-16 client model; distinct+non-trivial = distinct decision traces",
     components_real: &["sway_lsp::ServerState, did_open/did_change/did_save handlers", "sway_lsp::core::document::{TextDocument, Documents}", "compile worker (running, not judged)", "tokio::fs on a 1-thread blocking pool"],
     components_stub: &["JSON-RPC transport and tower-lsp router (dispatcher model)", "LSP client", "entropy (seeded shim)", "ps (fake)"],
